@@ -347,8 +347,8 @@ Lemma flat_map_single {X Y} (f : X -> Y) (l : list X) : flat_map (fun x => [f x]
 Proof. induction l as [|x l IH]; [reflexivity|]. cbn [flat_map map app]. rewrite IH. reflexivity. Qed.
 
 (* B and H: the all-on-surface exit is invisible, rows are independent *)
-Theorem cylseg_BH_rowwise e1 e2 f (rows : list csrow) : f = FB \/ f = FH ->
-  cylseg e1 e2 f rows = flat_map (fun r => cylseg e1 e2 f [r]) rows.
+Theorem cylseg_BH_rowwise e1 e2 z1 z2 f (rows : list csrow) : f = FB \/ f = FH ->
+  cylseg e1 e2 z1 z2 f rows = flat_map (fun r => cylseg e1 e2 z1 z2 f [r]) rows.
 Proof.
   intros [-> | ->]; unfold BatchModel.cylseg; cbn [existsb map].
   - destruct (existsb not_surf rows) eqn:E; cbn [negb].
@@ -363,10 +363,35 @@ Proof.
       rewrite orb_false_r, (existsb_false_in _ _ E r Hr). reflexivity.
 Qed.
 
-(* J and M are row-wise once the exit no longer precedes their branches *)
-Theorem cylseg_JM_rowwise_when_exit_after f (rows : list csrow) : f = FJ \/ f = FM ->
-  cylseg false false f rows = flat_map (fun r => cylseg false false f [r]) rows.
+(* J and M are row-wise when the exit does not precede their branch, or when the branch zeroes
+   the on-surface rows too *)
+Hypothesis div_zero : div_mu0 wzero = wzero.
+
+Lemma jm_rowwise (eb zs : bool) (scale : W -> W) (rows : list csrow) :
+  scale wzero = wzero -> eb = false \/ zs = true ->
+  (if eb && negb (existsb not_surf rows) then map (fun _ => wzero) rows
+   else map (fun r => if inside r && (negb zs || not_surf r) then scale (polv r) else scale wzero) rows)
+  = flat_map (fun r => if eb && negb (existsb not_surf [r]) then map (fun _ => wzero) [r]
+                       else map (fun r => if inside r && (negb zs || not_surf r) then scale (polv r)
+                                          else scale wzero) [r]) rows.
 Proof.
-  intros [-> | ->]; unfold BatchModel.cylseg; cbn [andb map]; rewrite <- flat_map_single; reflexivity.
+  intros Hs [-> | ->].
+  - cbn [andb]. rewrite <- flat_map_single. reflexivity.
+  - cbn [negb orb existsb map]. destruct eb; cbn [andb].
+    + destruct (existsb not_surf rows) eqn:E; cbn [negb].
+      * rewrite <- flat_map_single. apply flat_map_ext. intros r. rewrite orb_false_r.
+        destruct (not_surf r); cbn [negb]; [reflexivity|]. rewrite andb_false_r, Hs. reflexivity.
+      * rewrite <- flat_map_single. apply flat_map_ext_in_local. intros r Hr.
+        rewrite orb_false_r, (existsb_false_in _ _ E r Hr). reflexivity.
+    + rewrite <- flat_map_single. reflexivity.
+Qed.
+
+Theorem cylseg_JM_rowwise_if e1 e2 z1 z2 f (rows : list csrow) :
+  (f = FJ /\ (e1 = false \/ z1 = true)) \/ (f = FM /\ (e2 = false \/ z2 = true)) ->
+  cylseg e1 e2 z1 z2 f rows = flat_map (fun r => cylseg e1 e2 z1 z2 f [r]) rows.
+Proof.
+  intros [[-> H] | [-> H]]; unfold BatchModel.cylseg.
+  - apply (jm_rowwise e1 z1 (fun w => w) rows eq_refl H).
+  - apply (jm_rowwise e2 z2 div_mu0 rows div_zero H).
 Qed.
 End CylSegProofs.
